@@ -625,6 +625,42 @@ def m_pid_zero(r, cfg, pre):
         p["sensor"] = r.pick([None, "", f"{pre}nosensor"])
 
 
+def m_fn_type_and_empty(r, cfg, pre):
+    """position of the empty-member check: after the type check, before the member loop"""
+    fn = _ensure_fn(r, cfg, pre, 1)
+    c = r.pick(fn)
+    c["function"]["curves"] = r.pick([[], None])
+    c["function"]["type"] = r.pick(["median", None, "sum", "average"])
+
+
+def m_lin_sensor_and_empty_steps(r, cfg, pre):
+    """position of the empty-steps check: after the sensor checks"""
+    ls = [c for c in cfg["curves"] if "linear" in c]
+    if not ls:
+        return False
+    l = r.pick(ls)["linear"]
+    l["steps"] = (r.pick(["emptylist", "emptymap"]), [])
+    if r.chance(0.6):
+        l["sensor"] = r.pick([None, "", f"{pre}nosensor"])
+
+
+def m_fan_ca_empty_and(r, cfg, pre):
+    """position of the empty-controlAlgorithm check: after the curve checks, before hwmon/file/cmd"""
+    f = r.pick(cfg["fans"])
+    f["ca"] = ("map", {})
+    k = r.below(4)
+    if k == 0:
+        f["curve"] = r.pick([None, f"{pre}nocurve"])
+    elif k == 1:
+        for kk in ("file", "cmd"):
+            f.pop(kk, None)
+        f["hwmon"] = {}
+    elif k == 2:
+        for kk in ("hwmon", "cmd"):
+            f.pop(kk, None)
+        f["file"] = {"path": ""}
+
+
 def m_curves_absent(r, cfg, pre):
     """function curve without `curves:`; or whole sections absent"""
     k = r.below(3)
@@ -763,6 +799,7 @@ MUTATIONS = [
     m_curve_dup, m_curve_noid, m_curve_nobackend, m_curve_more,
     m_fn_type, m_fn_members_empty, m_fn_members_one, m_fn_members_many, m_fn_self, m_fn_dangling, m_fn_cycle,
     m_lin_sensor, m_lin_steps, m_lin_steps, m_pid_zero, m_curves_absent,
+    m_fn_type_and_empty, m_lin_sensor_and_empty_steps, m_fan_ca_empty_and,
     m_fan_dup, m_fan_noid, m_fan_nobackend, m_fan_more, m_fan_curve, m_fan_ca, m_fan_ca, m_fan_hwmon, m_fan_hwmon,
     m_fan_file, m_fan_cmd, m_fan_cmd, m_mode, m_mode,
 ]
@@ -848,9 +885,12 @@ def gen_config_directed(r=None):
 
 
 def gen_config_witnesses():
-    """pinned witnesses of the defects found with this stream (accepted by the validator, panic
-    when evaluated): empty-member `average` (integer divide by zero) and `delta` (index out of
-    range; here with `curves:` absent), `steps: []` and `steps: {}` (index out of range)."""
+    """pinned witnesses of the defects found with this stream. Before the fixes 6a042ff / ffb7e7d the
+    validator accepted them and running them panicked (empty-member `average`: integer divide by
+    zero; `delta`, here with `curves:` absent: index out of range; `steps: []` / `steps: {}`:
+    index out of range; `controlAlgorithm: {}`: nil control loop in the controller). They are now
+    rejected with curveNoMembers / curveEmptySteps / fanEmptyAlgo (the model produces the
+    expectation; `cfg.run` then prints `run=skipped` on both sides)."""
     sensors = [{"id": "s", "file": True}]
     fan = [{"id": "fan", "file": {"path": "/tmp/verif_x"}, "curve": "c"}]
     cases = {
@@ -862,6 +902,10 @@ def gen_config_witnesses():
     ops = []
     for k, c in cases.items():
         ops += case_lines({"sensors": sensors, "curves": [c], "fans": fan, "mode": "644"}, label="cfg-witness " + k)
+    leaf = {"id": "c", "linear": {"sensor": "s", "min": 40, "max": 80}}
+    fan2 = [{"id": "fan", "file": {"path": "/tmp/verif_x"}, "curve": "c", "ca": ("map", {})}]
+    ops += case_lines({"sensors": sensors, "curves": [leaf], "fans": fan2, "mode": "644"},
+                      label="cfg-witness controlAlgorithm-empty")
     return ops
 
 
